@@ -1570,7 +1570,8 @@ def render(n) -> str:
     if t == 'lookup':
         return f'{_primary(n[1])}?{n[2]}'
     if t == 'arrow':
-        target = n[2][1] if n[2][0] == 'ref' else _primary(n[2])
+        # ArrowFunctionSpecifier ::= EQName | VarRef | ParenthesizedExpr
+        target = n[2][1] if n[2][0] == 'ref' else render(n[2]) if n[2][0] == 'var' else f'({render(n[2])})'
         return f'({render(n[1])} => {target}(' + ', '.join(render(a) for a in n[3:]) + '))'
     raise ValueError(f'unknown AST node {t!r}')
 
@@ -1812,6 +1813,7 @@ def self_test():
     ipc = Interp(default_collation=COLLATION_HTML_ASCII)
     assert canon_seq(ipc.run(['call', 'sort', [mixed, ['empty'], ['inline', ['x'], ['var', 'x']]]])) == strs('_', 'A', 'a', 'b', 'B', 'Z')
     assert canon_seq(ipc.run(['call', 'sort', [mixed, ['str', COLLATION_CODEPOINT]]])) == strs('A', 'B', 'Z', '_', 'a', 'b')
+    assert render(['arrow', ['int', 2], ['dyn', ['var', 'a'], [['?']]]]) == '(2 => ($a(?))())'
     assert render(['filter', ['var', 'x'], ['int', 1]]) == '$x[1]'
     assert render(['filter', ['int', 3], ['int', 1]]) == '(3)[1]'
     assert render(['dyn', ['inline', [], ['int', 1]], []]) == '(function() { 1 })()'
